@@ -103,3 +103,16 @@ ENTRY(z_mgr_zdt) {
   __verif_assume(t >= (int32_t) a1 && t < (int32_t) a2);
   zdtRoundTrip(tz, other, t);
 }
+
+// C09: transition buffer bound of the extended processor for zone a0, instant t in [a1,a2)
+ENTRY(z_ext_highwater) {
+  ExtendedZoneProcessor proc;
+  const extended::ZoneInfo* zi = zonedbx::kZoneRegistry[a0];
+  TimeZone tz = TimeZone::forZoneInfo(zi, &proc);
+  int32_t t = __verif_nondet_i32("t");
+  __verif_assume(t >= (int32_t) a1 && t < (int32_t) a2);
+  TimeOffset off = tz.getUtcOffset(t);
+  __verif_observe("isError", off.isError());
+  __verif_observe("highWater", proc.getTransitionHighWater());
+  __verif_observe("bufSize", zi->transitionBufSize);
+}
